@@ -190,7 +190,9 @@ func (p *vfC13Peer) handle(pc *vfPeerConn) {
 				if e2, err := p.expect(pc, "enable"); err != nil || !e2.Is(vfNSSM, "enable") {
 					return
 				}
-				pc.Send(fmt.Sprintf("<enabled xmlns='%s' id='sm%d' resume='true'/>", vfNSSM, pc.N))
+				// XEP-0198's location hint names a place that is not there (any more): a hint, not an order - the
+				// configured address still works and must still be used
+				pc.Send(fmt.Sprintf("<enabled xmlns='%s' id='sm%d' resume='true' location='127.0.0.1:1'/>", vfNSSM, pc.N))
 			}
 			if first {
 				if e2, err := p.expect(pc, "presence"); err != nil || !e2.Is("", "presence") {
@@ -353,18 +355,40 @@ func vfC13Run(run *vfkit.Run, cs *vfC13Case) {
 	}
 	// waitSession returns the next session established at the peer, or nil as soon as it is logically impossible
 	// that one will come: no retry loop exists and this client's receive loop is gone or stuck (two observations).
+	// the retry loop's sleeps, read off the goroutine dump: distinct arguments of time.Sleep = distinct back-off pauses =
+	// that many failed attempts. If the loop has failed six times while this peer - which is listening - has not seen a
+	// single attempt, the client is trying somewhere else.
+	sleepNeedle := fmt.Sprintf("gosrc.io/xmpp.(*StreamManager).resume(%p", sm)
+	sleepsSeen := map[string]bool{}
+	var attemptsAtLoss int32
+	listenerDown, unreached := false, false
 	waitSession := func(max time.Duration) *vfC13Sess {
 		deadline := time.After(max)
-		dead := 0
+		dead, polls := 0, 0
 		for {
 			select {
 			case s := <-vp.established:
 				return s
 			case <-deadline:
 				return nil
-			case <-time.After(100 * time.Millisecond):
+			case <-time.After(25 * time.Millisecond):
+				for _, g := range vfGoroutines() {
+					if strings.Contains(g.Text, sleepNeedle) {
+						if m := vfSleepArg.FindStringSubmatch(g.Text); m != nil {
+							sleepsSeen[m[1]] = true
+						}
+					}
+				}
+				if len(sleepsSeen) >= 6 && !listenerDown && atomic.LoadInt32(&vp.attempts) == attemptsAtLoss && atomic.LoadInt32(&vp.disturbed) == 0 {
+					unreached = true
+					return nil
+				}
 				if atomic.LoadInt32(&vp.abandoned) >= 3 {
 					return nil // three opportunities wasted: decided by count, not by the clock
+				}
+				polls++
+				if polls%4 != 0 {
+					continue
 				}
 				if !vfRetryLoopAlive() && vfClientRecvIdle(c) {
 					dead++
@@ -436,6 +460,10 @@ func vfC13Run(run *vfkit.Run, cs *vfC13Case) {
 	for fi, f := range cs.Faults {
 		tag := f
 		attemptsBefore := atomic.LoadInt32(&vp.attempts)
+		attemptsAtLoss = attemptsBefore
+		for k := range sleepsSeen {
+			delete(sleepsSeen, k)
+		}
 		switch {
 		case f == "rst" || f == "fin" || f == "graceful":
 			cur.cmds <- f
@@ -491,6 +519,7 @@ func vfC13Run(run *vfkit.Run, cs *vfC13Case) {
 		case strings.HasPrefix(f, "down-"):
 			m := int(f[len(f)-1] - '0')
 			peer.CloseListener()
+			listenerDown = true
 			cur.cmds <- "rst"
 			// stay down for roughly m attempts of the back-off (20 ms * 2^n, jittered), then accept again
 			time.Sleep(time.Duration(15*(1<<uint(m))) * time.Millisecond)
@@ -498,6 +527,11 @@ func vfC13Run(run *vfkit.Run, cs *vfC13Case) {
 				run.Inconclusive("reopen-failed")
 				stop()
 				return
+			}
+			listenerDown = false
+			attemptsAtLoss = atomic.LoadInt32(&vp.attempts)
+			for k := range sleepsSeen {
+				delete(sleepsSeen, k)
 			}
 		case f == "garbage" || strings.HasPrefix(f, "abort-"):
 			vp.mu.Lock()
@@ -566,7 +600,9 @@ func vfC13Run(run *vfkit.Run, cs *vfC13Case) {
 		if next == nil {
 			// decided logically: is anything still trying?
 			alive := vfRetryLoopAlive()
-			if ab := atomic.LoadInt32(&vp.abandoned); ab > 0 {
+			if unreached {
+				run.Violation("C13/retries-never-reach-the-configured-server:"+tag, fmt.Sprintf("fault #%d %q: the retry loop has paused %d times (so as many attempts have failed) while the configured server, which is listening, has not seen one connection attempt", fi, f, len(sleepsSeen))+vp.diag(c, sm), cs)
+			} else if ab := atomic.LoadInt32(&vp.abandoned); ab > 0 {
 				run.Violation("C13/accepting-server-not-used:"+tag, fmt.Sprintf("fault #%d %q: since the loss the peer was ready to accept %d connection attempts (stream opened, nothing planned against them, no application stanza in the way) and the client gave each of them up before a session existed (retry loop alive: %v; error callbacks: %v)",
 					fi, f, ab, alive, obs.Errors())+vp.diag(c, sm), cs)
 			} else if alive {
